@@ -127,7 +127,7 @@ def name_split(idx, rep, rid):
     quoted name containing a dot — ExpressionUtility.get_name_and_qualifiers interpreted directly"""
     import itertools
     fi = idx.method("ExpressionUtility", "get_name_and_qualifiers")
-    rep.analysed(fi, idx.method("ExpressionUtility", "_next_qual"))
+    rep.analysed(fi, *[idx.method("ExpressionUtility", m) for m in ("_next_qual",) if idx.has_method("ExpressionUtility", m)])
     quals = ["onmatch", "latch", "once", "k", "nocontrib"]
     bad = None
     n = 0
